@@ -260,7 +260,7 @@ def extract_block(trace, lineno):
         return lines[start:end + 1]
     # stateless line: back to the input line
     j = i
-    heads = ("dec ", "txt ", "json ", "decmany ", "declist ", "nid ", "ck ")
+    heads = ("dec ", "txt ", "json ", "jsondoc ", "decmany ", "declist ", "nid ", "ck ")
     while j >= 0 and not lines[j].startswith(heads):
         j -= 1
     j = max(j, 0)
